@@ -848,7 +848,38 @@ func (w *World) checkC51() {
 			if pos == 0 {
 				what = "the asked node itself"
 			}
-			if w.r.Chance(0.5) {
+			variant := w.r.Intn(3)
+			if variant == 2 {
+				// the record is missing when the call starts and is published a moment later (a node that has just
+				// joined): whatever the call makes of it, a successful answer is a well-formed list
+				w.cluster.Slots[0].Node.Delete(context.Background(), []byte(key))
+				simrt.Sleep(150*time.Millisecond, "h:pace")
+				done := make(chan struct{})
+				delay := time.Duration(20+w.r.Intn(500)) * time.Millisecond
+				simrt.GoGroup("h:late-record", "", func() {
+					defer close(done)
+					simrt.Sleep(delay, "h:late-record")
+					w.cluster.Slots[0].Node.Put(context.Background(), []byte(key), old)
+				})
+				if resp2, err := w.call(c, si, "GetNodes", &protocol.GetNodesRequest{}); err == nil {
+					got := resp2.(*protocol.GetNodesResponse).GetNodes()
+					seen := map[string]bool{}
+					for i, n := range got {
+						ok := false
+						for _, x := range w.servers {
+							ok = ok || x.TunT.Identity().GetAddress() == n.GetAddress()
+						}
+						if !ok || seen[n.GetAddress()] || (i == 0 && n.GetAddress() != w.servers[si].TunT.Identity().GetAddress()) {
+							w.res.Violate("C51", "late-record-scrambles-list", "the destination record of %s (%s) was published %v after the call started: GetNodes at server %d (%s) answered %v", what, victim.ChordT.Identity().GetAddress(), delay, si, w.servers[si].TunT.Identity().GetAddress(), got)
+							break
+						}
+						seen[n.GetAddress()] = true
+					}
+				}
+				for range done {
+				}
+				simrt.Probe("late-record")
+			} else if variant == 0 {
 				w.cluster.Slots[0].Node.Delete(context.Background(), []byte(key))
 				simrt.Sleep(150*time.Millisecond, "h:pace")
 				if _, err := w.call(c, si, "GetNodes", &protocol.GetNodesRequest{}); err == nil {
